@@ -358,6 +358,9 @@ func (p Prop[C]) Regress(t *testing.T) bool {
 		if test != p.Test {
 			continue
 		}
+		if strings.Contains(","+os.Getenv("VERIF_GEN_EXCLUDE")+",", ",regress:"+strings.TrimSuffix(filepath.Base(f), ".json")+",") {
+			continue // seed evaluation on a tree from which the fix this case guards was reverted
+		}
 		var c C
 		if err := json.Unmarshal(raw, &c); err != nil {
 			HarnessError(t, "regress file %s: %v", f, err)
